@@ -7,6 +7,7 @@ exits that precede each guard, and calls through which a guard can be delegated 
 from __future__ import annotations
 
 import ast
+import re
 import copy
 import itertools
 from dataclasses import dataclass, field
@@ -148,6 +149,14 @@ class Canon:
              for a, b in zip(A, B)          a -> each(A), b -> each(B)
              for i, a in enumerate(A)       a -> each(A), X[i] -> each(X)
         """
+        for _ in range(4):
+            if isinstance(it, ast.Name) and it.id in self.single and it.id not in self.loopvars and isinstance(self.single[it.id], ast.Call) \
+                    and (dotted(self.single[it.id].func) or "") in ("tuple", "list"):
+                it = self.single[it.id]
+            if isinstance(it, ast.Call) and (dotted(it.func) or "") in ("tuple", "list") and len(it.args) == 1 and not it.keywords:
+                it = it.args[0]          # iterating tuple(X) / list(X) visits the elements of X
+            else:
+                break
         base = it
         fn = (dotted(it.func) or "") if isinstance(it, ast.Call) else ""
         if fn == "zip" and isinstance(target, (ast.Tuple, ast.List)) and len(target.elts) == len(it.args):
@@ -242,6 +251,17 @@ class Canon:
                     return ast.Name(id=f"each({inner})", ctx=ast.Load())
                 return self.generic_visit(n)
 
+            def visit_Call(self, n):
+                n = self.generic_visit(n)
+                fname = dotted(n.func) or ""
+                # range(0, x) ~ range(x), np.arange(0, x) ~ np.arange(x);  X.transpose() ~ X.T
+                if fname in ("range", "np.arange", "numpy.arange") and len(n.args) == 2 and not n.keywords and const(n.args[0]) == 0 \
+                        and isinstance(n.args[0], ast.Constant) and n.args[0].value is not False:
+                    n.args = [n.args[1]]
+                if isinstance(n.func, ast.Attribute) and n.func.attr == "transpose" and not n.args and not n.keywords:
+                    return ast.Attribute(value=n.func.value, attr="T", ctx=ast.Load())
+                return n
+
             def visit_ListComp(self, n):
                 return canon._alpha(n, self)
 
@@ -298,12 +318,25 @@ def atoms_of(test: ast.expr, truth: bool, c: Canon) -> List[FrozenSet[Atom]]:
         for p in parts:
             out.extend(p)
         return out
+    if isinstance(test, ast.Call) and isinstance(test.func, ast.Name) and test.func.id in ("all", "any") and len(test.args) == 1 \
+            and not test.keywords and isinstance(test.args[0], (ast.GeneratorExp, ast.ListComp)) and len(test.args[0].generators) == 1 \
+            and not test.args[0].generators[0].ifs and (test.func.id == "any") == truth:
+        # existential reading:  not all(P(x) for x in X)  ~  any(not P(x) for x in X)  ~  `for x in X: if not P(x): ...`
+        comp = test.args[0]
+        g = comp.generators[0]
+        names = [x.id for x in ast.walk(g.target) if isinstance(x, ast.Name)]
+        if not any(nm in c.params for nm in names):
+            c.push_loop(g.target, g.iter)
+            try:
+                return atoms_of(comp.elt, truth, c)
+            finally:
+                c.pop_loop()
     if isinstance(test, ast.Compare) and len(test.ops) > 1:
         # chained comparison = conjunction of pairwise comparisons
         items = [test.left] + list(test.comparators)
         comps = [ast.Compare(left=items[i], ops=[test.ops[i]], comparators=[items[i + 1]]) for i in range(len(test.ops))]
         return atoms_of(ast.BoolOp(op=ast.And(), values=comps), truth, c)
-    if isinstance(test, ast.Name) and test.id in c.single and isinstance(c.single[test.id], (ast.BoolOp, ast.Compare, ast.UnaryOp)) \
+    if isinstance(test, ast.Name) and test.id in c.single and isinstance(c.single[test.id], (ast.BoolOp, ast.Compare, ast.UnaryOp, ast.Call)) \
             and _depth_ok(c, test.id):
         return atoms_of(c.single[test.id], truth, c)
     if isinstance(test, ast.Compare) and len(test.ops) == 1:
@@ -379,6 +412,11 @@ def _lit(test: ast.expr, truth: bool, c: Canon) -> Atom:
             if t is ast.LtE:
                 a, b = b, a
                 truth = not truth
+            # sizes are never negative:  0 < n  ~  n != 0,   n < 1  ~  n == 0   (one spelling for both)
+            if a == "0" and _nonneg(b):
+                return f"{'!' if truth else ''}eq(0, {b})"
+            if b == "1" and _nonneg(a):
+                return f"{'' if truth else '!'}eq(0, {a})"
             return f"{'' if truth else '!'}lt({a}, {b})"
         if t in (ast.In, ast.NotIn):
             pos = (t is ast.In) == truth
@@ -392,7 +430,24 @@ def _lit(test: ast.expr, truth: bool, c: Canon) -> Atom:
         return f"{'' if truth else '!'}isinstance({c.text(test.args[0])}, {'|'.join(names)})"
     if isinstance(test, ast.Constant):
         return f"const({bool(test.value) == truth})"
-    return f"{'' if truth else '!'}truthy({c.text(test)})"
+    txt = c.text(test)
+    if _nonneg(txt):
+        return f"{'!' if truth else ''}eq(0, {txt})"         # `if x.size:`  ~  `if x.size != 0:`
+    return f"{'' if truth else '!'}truthy({txt})"
+
+
+def _nonneg(t: str) -> bool:
+    """The text denotes a count (never negative): len(..), X.size, X.ndim(s), X.nnz, X.ncomponents, X.shape[k]."""
+    if t.startswith("len(") and t.endswith(")"):
+        depth = 0
+        for i, ch in enumerate(t):
+            depth += ch == "("
+            depth -= ch == ")"
+            if depth == 0 and i >= 3:
+                return i == len(t) - 1
+    if re.search(r"\.(size|ndim|ndims|nnz|ncomponents)$", t):
+        return True
+    return bool(re.search(r"\.shape\[\d+\]$", t))
 
 
 @dataclass
@@ -582,7 +637,10 @@ def simplify(conds: FrozenSet[Atom]) -> FrozenSet[Atom]:
     for a in conds:
         if a.startswith("!eq("):
             x, y = _split2(a[4:-1])
-            if (y in pos_eq and x not in pos_eq[y]) or (x in pos_eq and y not in pos_eq[x]):
+            # only for a SUBJECT compared with two different constants (s == 1 excludes s == 2); a shared constant says nothing
+            # (len(shape) == 0 and data.size != 0 are independent)
+            if (_constant_like(x) and not _constant_like(y) and y in pos_eq and any(_constant_like(k) and k != x for k in pos_eq[y])) or \
+                    (_constant_like(y) and not _constant_like(x) and x in pos_eq and any(_constant_like(k) and k != y for k in pos_eq[x])):
                 continue
         if a.startswith("!isinstance("):
             subj = _split2(a[len("!isinstance("):-1])[0]
@@ -592,6 +650,13 @@ def simplify(conds: FrozenSet[Atom]) -> FrozenSet[Atom]:
             continue
         out.add(a)
     return frozenset(out)
+
+
+def _constant_like(t: str) -> bool:
+    """A literal or an enumeration member / module constant (dotted name whose last component is upper case)."""
+    if re.fullmatch(r"-?\d+(\.\d*)?(e-?\d+)?|None|True|False|'[^']*'|\"[^\"]*\"", t):
+        return True
+    return bool(re.fullmatch(r"[A-Za-z_][\w.]*", t)) and t.split(".")[-1].isupper()
 
 
 def _split2(t: str) -> Tuple[str, str]:
@@ -657,6 +722,23 @@ def contradicts(a: Atom, b: Atom) -> bool:
         if f1 == "is" and not n1 and len(x1) == 2 and "None" in x1 and f2 == "isinstance" and not n2 and x2 and x2[0] in x1:
             return True
     return False
+
+
+def implies(a: Atom, b: Atom) -> bool:
+    """Atom a implies atom b: equal, or isinstance over a subset of the types (and the contrapositive)."""
+    if a == b:
+        return True
+    na, fa, xa = _atom_parts(a)
+    nb, fb, xb = _atom_parts(b)
+    if fa == fb == "isinstance" and na == nb and len(xa) == 2 and len(xb) == 2 and xa[0] == xb[0]:
+        ta, tb = set(xa[1].split("|")), set(xb[1].split("|"))
+        return ta <= tb if not na else tb <= ta
+    return False
+
+
+def implied_by(small: FrozenSet[Atom], big: FrozenSet[Atom]) -> bool:
+    """Every atom of `small` follows from some atom of `big` (big describes a sub-case of small)."""
+    return all(any(implies(b, a) for b in big) for a in small)
 
 
 def _consistent(s: FrozenSet[Atom]) -> bool:
